@@ -98,8 +98,52 @@ def py_writes(q):
     return size, ws, extra
 
 
+def py_dtscratch(n, cmp, lt2):
+    """dist_transform on a line of n cells with the two float tests as oracle matrices (row q, column k); the scratch arrays carry a
+    `stored` bitmap: every read must hit a stored cell. -> ([(read index, number of leading cells stored)], terminated, k)"""
+    C = lambda q, k: cmp[q * n + k] != 0 if q * n + k < len(cmp) else False
+    L = lambda q, k: lt2[q * n + k] != 0 if q * n + k < len(lt2) else False
+    v_st, z_st = [False] * (n + 8), [False] * (n + 9)
+    reads = []
+
+    def lead(st):
+        i = 0
+        while i < len(st) and st[i]:
+            i += 1
+        return i
+    v_st[0] = True; z_st[0] = True; z_st[1] = True          # v[0] = 0; z[0] = -inf; z[1] = inf
+    k = 0
+    for q in range(1, n):
+        while True:                                          # do { s = … v[k] …; if (s > z[k]) break; --k; } while (true)
+            reads.append((k, lead(v_st)))
+            reads.append((k, lead(z_st)))
+            if C(q, k):
+                break
+            if k == 0:
+                return reads, False, 0                       # k would become -1
+            k -= 1
+        k += 1
+        v_st[k] = True; z_st[k] = True; z_st[k + 1] = True   # v[k] = q; z[k] = s; z[k+1] = inf
+    kfin = k
+    k = 0
+    for q in range(n):
+        fuel = n + 2
+        while True:
+            if fuel == 0:
+                break
+            fuel -= 1
+            reads.append((k + 1, lead(z_st)))                # while (z[k+1] < q) ++k;
+            if not L(q, k):
+                reads.append((k, lead(v_st)))                # … v[k] …
+                break
+            k += 1
+    return reads, True, kfin
+
+
 def line_for(q):
     m = q['mech']
+    if m == 'dtscratch':
+        return f"c10 kind=alloc mech=dtscratch n={q['n']} cmp={_csv(q['cmp'])} lt2={_csv(q['lt2'])}"
     s = f"c10 kind=alloc mech={m} a={q.get('a', 0)} b={q.get('b', 0)} c={q.get('c', 0)}"
     if m == 'compress':
         s += f" mask={_csv(q['mask'])}"
@@ -109,6 +153,10 @@ def line_for(q):
 
 
 def line_and_direct(w, q):
+    if q['mech'] == 'dtscratch':
+        reads, term, k = py_dtscratch(q['n'], q['cmp'], q['lt2'])
+        # as (index, size) pairs: "index < number of stored leading cells" is the bounds test of this kind
+        return line_for(q), [(i, st) for i, st in reads], term, dict(k=str(k))
     size, ws, extra = py_writes(q)
     covers = set(range(size)) <= set(ws)
     extra = dict(extra, covers=str(int(covers)), size=str(size))
@@ -118,6 +166,22 @@ def line_and_direct(w, q):
 def model_cases(rng, n):
     out, R = [], rng.randint
     for _ in range(n):
+        if rng.random() < 0.2:
+            # dist_transform scratch arrays: random oracles that respect (i) cmp q 0 and (ii) the sentinel of the final k
+            nn = R(1, 9)
+            p = rng.choice([0.2, 0.5, 0.9])
+            cm = [1 if k == 0 else int(rng.random() < p) for q_ in range(nn) for k in range(nn)]
+            _, _, kfin = py_dtscratch(nn, cm, [0] * (nn * nn))
+            l2 = [int(k < kfin and rng.random() < 0.6) for q_ in range(nn) for k in range(nn)]
+            dom = True
+            if rng.random() < 0.15:              # outside: the sentinel ignored / a NaN-like failing first test (agreement only)
+                if rng.random() < 0.5:
+                    l2 = [1] * (nn * nn)
+                else:
+                    cm = [int(rng.random() < 0.3) for _ in range(nn * nn)]
+                dom = False
+            out.append(dict(kind='model2', which='alloc', p=dict(mech='dtscratch', n=nn, cmp=cm, lt2=l2), domain=dom))
+            continue
         m = rng.choice(MECHS)
         q = dict(mech=m, a=R(0, 12), b=R(0, 9), c=0)
         if m == 'compress':
